@@ -12,13 +12,17 @@ import os
 
 class ChunkedRaw(io.RawIOBase):
 
-    def __init__(self, data, chunks):
+    def __init__(self, data, chunks, fail_at=None, fail_once=False):
         super().__init__()
         self._d = bytes(data)
         self._p = 0
         self._chunks = [max(1, int(c)) for c in chunks] or [1]
         self._k = 0
         self.short_reads = 0
+        # a bad sector: delivering the byte at offset fail_at raises EIO (every time, or only the first time)
+        self._fail_at = None if fail_at is None else int(fail_at)
+        self._fail_once = bool(fail_once)
+        self.io_errors = 0
 
     def readable(self):
         return True
@@ -51,6 +55,14 @@ class ChunkedRaw(io.RawIOBase):
         c = self._chunks[self._k % len(self._chunks)]
         self._k += 1
         n = min(want, c, len(self._d) - self._p)
+        if self._fail_at is not None and self._p <= self._fail_at < self._p + n:
+            if self._p == self._fail_at:
+                self.io_errors += 1
+                if self._fail_once:
+                    self._fail_at = None
+                import errno
+                raise OSError(errno.EIO, 'simulated I/O error at byte %d' % self._p)
+            n = self._fail_at - self._p          # deliver what lies before the bad byte first
         if n < min(want, len(self._d) - self._p):
             self.short_reads += 1
         b[:n] = self._d[self._p:self._p + n]
@@ -58,6 +70,14 @@ class ChunkedRaw(io.RawIOBase):
         return n
 
     def readall(self):
+        if self._fail_at is not None and self._fail_at >= self._p:
+            out = bytearray()
+            while True:
+                b = bytearray(65536)
+                k = self.readinto(b)
+                if not k:
+                    return bytes(out)
+                out += b[:k]
         out = self._d[self._p:]
         self._p = len(self._d)
         return out
@@ -66,7 +86,7 @@ class ChunkedRaw(io.RawIOBase):
 SOURCE_KINDS = ['text', 'path', 'bytesio', 'chunked', 'buffered']
 
 
-def make_source(kind, data, scratch, name, chunks=(7, 1, 64, 3), bufsize=16):
+def make_source(kind, data, scratch, name, chunks=(7, 1, 64, 3), bufsize=16, fail_at=None, fail_once=False):
     """Returns (object to hand to the reader, closer, stream-or-None).
     `data` is text (str)."""
     raw = data.encode('utf-8')
@@ -81,10 +101,10 @@ def make_source(kind, data, scratch, name, chunks=(7, 1, 64, 3), bufsize=16):
         s = io.BytesIO(raw)
         return s, s.close, s
     if kind == 'chunked':
-        s = ChunkedRaw(raw, chunks)
+        s = ChunkedRaw(raw, chunks, fail_at, fail_once)
         return s, s.close, s
     if kind == 'buffered':
-        r = ChunkedRaw(raw, chunks)
+        r = ChunkedRaw(raw, chunks, fail_at, fail_once)
         s = io.BufferedReader(r, buffer_size=max(1, int(bufsize)))
         return s, s.close, r
     raise ValueError(kind)
